@@ -347,7 +347,7 @@ func TestC03_Sweep(t *testing.T) {
 			}
 		case "bitstring":
 			lb, ub, has := sbounds(p)
-			ns = sweepSizes(lb, ub, has, 16383*8)
+			ns = sweepSizes(lb, ub, has, 16383)
 		case "octetstring", "string":
 			lb, ub, has := sbounds(p)
 			ns = sweepSizes(lb, ub, has, 16383)
